@@ -38,13 +38,13 @@ CLAIMED["C02"] = {
 CLAIMED["C06"] = {
     "text": "Seeded search over interleavings of 2-4 threads reading the components of the same fresh Interval (b - a, diff(), interval(); UTC, fixed-offset, naive, Date, same-zone and mixed-zone pairs biased to month ends, leap days and time-of-day borrows) while others rebuild the end (a + iv, a.add(components)), negate, copy, pickle or render it, with set_locale flips, zone-cache clears and restarts. Every observation must equal the cold single-threaded re-execution; for pairs that meet the statement's precondition the components must be canonical, a + (b - a) must be b, the reversed interval must report the negated components and in_months must be 12*years + months; every run index is executed by the compiled and the pure-Python helper backend (rebuilt from /repo/rust when its sources changed) and their un-pre-empted observations must be identical.",
     "ref": "DESIGN.md §5 C06",
-    "note": "trusts: endpoint pairs kept within 250 years so the float-derived sub-second components stay exact (C05's bound); rebuild is asserted for a <= b only, as the statement says; one open known finding (compiled backend, mixed-zone pairs whose UTC shift changes the date) is suppressed by signature only",
+    "note": "trusts: endpoint pairs kept within 250 years so the float-derived sub-second components stay exact (C05's bound); rebuild is asserted for a <= b only, as the statement says; no open known finding (the compiled mixed-zone date shift was repaired by bf98e04/771269e)",
 }
 
 CLAIMED["C18"] = {
     "text": "Seeded search over interleavings of diff_for_humans()/format_diff()/in_words()/locale format tokens (DateTime, Date, Time, Duration, Interval; all 27 locales) under a simulated clock that the nemesis moves between and during calls, set_locale flips, mock-local-zone changes and restarts; instances are placed at clock +- deltas straddling every rounding threshold and plural class. Each phrase must equal the cold re-execution under one admissible (clock, locale, local zone) assignment, be non-empty and fully substituted, match a template of the correct direction taken from the locale's own data (not from DifferenceFormatter), carry no direction marker when absolute, and its count x unit must be within one unit of the elapsed time to the simulated clock.",
     "ref": "DESIGN.md §5 C18",
-    "note": "trusts: time_machine as the clock seam (C entry points patched), locale data files as template source; nominal unit lengths (365.2425 d year, 30.44 d month, 2% slack); Time.diff_for_humans is decided by L1 only; two open known finding classes (same-zone offset change, compiled mixed-zone date shift) are suppressed by signature only",
+    "note": "trusts: time_machine as the clock seam (C entry points patched), locale data files as template source; nominal unit lengths (365.2425 d year, 30.44 d month, 2% slack); Time.diff_for_humans is decided by L1 only; one open known finding class (same-zone offset change) is suppressed by signature only",
 }
 
 CLAIMED["C08"] = {
@@ -91,7 +91,9 @@ PENDING = {p: "simulation target per DESIGN.md §5, check still under constructi
            for p in ()}
 
 FIX_COMMITS = ["0cac821 (C09 lazy-slot race)", "c2f908d (previous() never terminates across a skipped calendar day; C12/C16)",
-               "2c83944 (next() drifts to 01:00 after a skipped midnight; C16)", "6249586 (C12 week configuration read twice)", "1273e62 (C16 first_of/last_of depend on calendar.setfirstweekday())", "9fab684 (C02 mock local zone read twice)", "fc92ad3 (C06 precise_diff full-month shortcut, Python + Rust)", "b63f456 (Interval.__init__ dropped endpoint fold; C18)", "a0e6037 (zh before/after templates; C18)", "5ef6d18 (nl week_data misplaced; C18)", "89fb712 (Rust ordinal dates on month ends; C08)", "ab5eca4 (z token regex; C08)", "77c9f3a (from_format escaped literals; C08)", "7d62906 + 71470da (Do token in from_format; C08)", "a8ba9ca (instance() of pytz second-pass datetimes; C01)", "df3000b (instance() of pytz.FixedOffset; C01)", "a2ae08e (Interval endpoint order by instant for shared tzinfo; C05/C18)", "6546eac (Duration deepcopy weeks; C14)", "02aeae7 (Interval deepcopy; C14)", "3598369 (DateTime pickle fold; C14)", "249b599 (Duration pickle years/months; C14)"]
+               "2c83944 (next() drifts to 01:00 after a skipped midnight; C16)", "6249586 (C12 week configuration read twice)", "1273e62 (C16 first_of/last_of depend on calendar.setfirstweekday())", "9fab684 (C02 mock local zone read twice)", "fc92ad3 (C06 precise_diff full-month shortcut, Python + Rust)", "b63f456 (Interval.__init__ dropped endpoint fold; C18)", "a0e6037 (zh before/after templates; C18)", "5ef6d18 (nl week_data misplaced; C18)", "89fb712 (Rust ordinal dates on month ends; C08)", "ab5eca4 (z token regex; C08)", "77c9f3a (from_format escaped literals; C08)", "7d62906 + 71470da (Do token in from_format; C08)", "a8ba9ca (instance() of pytz second-pass datetimes; C01)", "df3000b (instance() of pytz.FixedOffset; C01)", "a2ae08e (Interval endpoint order by instant for shared tzinfo; C05/C18)", "6546eac (Duration deepcopy weeks; C14)", "02aeae7 (Interval deepcopy; C14)", "3598369 (DateTime pickle fold; C14)", "249b599 (Duration pickle years/months; C14)",
+               "bf98e04 (compiled precise_diff UTC shift across month boundaries; C06/C18)", "771269e (compiled precise_diff equal-endpoints early return; C06)",
+               "dc6c9d1 (quarter/year navigation carried the time of day onto a date where it is skipped; C16)"]
 
 
 def main():
